@@ -339,20 +339,20 @@ static void reset_thr (struct thr *th) {
 
 /* reference observations, cached per (workload, level) for the life of the process */
 struct refent { int wid, level, failed, fail_phase; char fail_text[600]; struct obs o[2]; };
-static struct refent *refs;
+static struct refent **refs; /* entries are allocated one by one: callers keep pointers to them */
 static int nrefs, refs_cap;
 
 static struct refent *reference (int wid, int level) {
   struct thr t;
   pthread_t pt;
-  for (int i = 0; i < nrefs; i++) if (refs[i].wid == wid && refs[i].level == level) return &refs[i];
+  for (int i = 0; i < nrefs; i++) if (refs[i]->wid == wid && refs[i]->level == level) return refs[i];
   memset (&t, 0, sizeof (t));
   t.tid = 0; t.wid = wid; t.level = level;
   pthread_create (&pt, NULL, alone_main, &t);
   pthread_join (pt, NULL);
   if (nrefs == refs_cap) { refs_cap = refs_cap ? 2 * refs_cap : 64; refs = realloc (refs, refs_cap * sizeof (*refs)); }
-  struct refent *r = &refs[nrefs++];
-  memset (r, 0, sizeof (*r));
+  struct refent *r = calloc (1, sizeof (*r));
+  refs[nrefs++] = r;
   r->wid = wid; r->level = level; r->failed = t.failed; r->fail_phase = t.fail_phase;
   memcpy (r->fail_text, t.fail_text, sizeof (r->fail_text));
   r->o[0] = t.o[0]; r->o[1] = t.o[1];
